@@ -306,7 +306,7 @@ def slist_filter(eng, xs, pred_fn, name="flt"):
         for other in finfos:
             card_lemmas(eng, info, other)
         finfos.append(info)
-    out = SList(r, get, name, tainted=xs.tainted)
+    out = SList(r, get, name, tainted=xs.tainted, meta=(info, materialize, xs))
     out_meta = eng.path.notes.setdefault("filter_meta", {})
     out_meta[id(out)] = (info, materialize, xs)
     eng.path.notes.setdefault("keepalive", []).append(out)
@@ -665,7 +665,7 @@ def m_list(eng, args, kwargs, anysym):
         return []
     (x,) = args
     if isinstance(x, SList):
-        return SList(x.length, x.get, x.name, x.tainted)
+        return SList(x.length, x.get, x.name, x.tainted, x.meta)
     if isinstance(x, Unzipped):
         return x.to_list(eng)
     if isinstance(x, SymSet):
